@@ -75,6 +75,11 @@ pub trait Scenario: Sync {
     /// Short class name of an action for the per-kind statistics.
     fn kind(&self, a: &Self::A) -> String;
     fn step(&self, w: &Self::W, s: &Self::S, a: &Self::A, faults: &[usize]) -> Step<Self::S>;
+    /// Oracle evaluated on every base state before the search (a base state that violates the
+    /// property is a violation with an empty path).
+    fn check_base(&self, _w: &Self::W, _s: &Self::S) -> Option<String> {
+        None
+    }
     /// Extra information attached to evidence (policy, cast, alphabets...).
     fn describe(&self) -> Value {
         json!({})
@@ -196,7 +201,18 @@ pub fn explore<Sc: Scenario>(scn: &Sc, b: &Bounds) -> Report {
     };
     let w0 = scn.worker(&store);
     let bases = scn.bases(&w0);
+    for (name, s) in &bases {
+        if let Some(v) = scn.check_base(&w0, s) {
+            rep.violations.push(ViolationReport { scenario: scn.name(), base: name.clone(), path: vec![], message: format!("base state {name}: {v}") });
+        }
+    }
     drop(w0);
+    if !rep.violations.is_empty() {
+        rep.bases = bases.iter().map(|b| b.0.clone()).collect();
+        rep.states = bases.len() as u64;
+        rep.wall_s = t0.elapsed().as_secs_f64();
+        return rep;
+    }
     store.commit();
     rep.bases = bases.iter().map(|b| b.0.clone()).collect();
 
@@ -224,7 +240,8 @@ pub fn explore<Sc: Scenario>(scn: &Sc, b: &Bounds) -> Report {
             break;
         }
         let t_level = Instant::now();
-        let nthreads = b.threads.max(1).min(frontier.len().max(1));
+        // at least 8 nodes per worker: building a worker (genesis + base recipes) is not free
+        let nthreads = b.threads.max(1).min(frontier.len().div_ceil(8).max(1));
         let chunk = frontier.len().div_ceil(nthreads);
         type Out<S, A> = (
             Vec<Succ<S, A>>,
@@ -489,6 +506,9 @@ pub fn replay_path<Sc: Scenario>(scn: &Sc, base: &str, path: &[(Sc::A, Vec<usize
     let Some((_, s0)) = bases.iter().find(|b| b.0 == base) else {
         return Err(format!("unknown base state {base}"));
     };
+    if let Some(v) = scn.check_base(&w, s0) {
+        return Ok(Some(format!("base state {base}: {v}")));
+    }
     let mut s = s0.clone();
     for (i, (a, f)) in path.iter().enumerate() {
         let st = scn.step(&w, &s, a, f);
